@@ -303,7 +303,8 @@ def run_skolem(case):
     n, step, order, mode = case["n"], case["step"], case["order"], case["mode"]
     from rdflib import BNode, Literal, URIRef
     LBL, NXT = URIRef("urn:label"), URIRef("urn:next")
-    nodes = [BNode("r%d" % i) for i in range(n)]
+    # (labels of the second style contain '/' and many share their last segment: such nodes must stay apart through the skolem IRI)
+    nodes = [BNode("r%d" % i) if not case.get("labels") else BNode("doc%d/b%d" % (i, i % 3)) for i in range(n)]
     attrs = [(nodes[i], LBL, Literal(i)) for i in range(n)]
     links = [(nodes[i], NXT, nodes[(i + step) % n]) for i in range(n)]
     triples = attrs + links if order == 0 else (links + attrs if order == 1 else [t for pair in zip(attrs, links) for t in pair])
@@ -339,7 +340,7 @@ def run_skolem(case):
 
 def skolem_cases(tier):
     return st.fixed_dictionaries({"n": st.one_of(st.integers(2, 40), st.integers(129, 400 if tier == "thorough" else 260)), "step": st.integers(1, 7),
-                                  "order": st.integers(0, 2), "mode": st.integers(0, 2)})
+                                  "order": st.integers(0, 2), "mode": st.integers(0, 2), "labels": st.integers(0, 1)})
 
 
 SUBCHECKS = [Sub("pairs", lambda tier: pairs(tier), run, {"quick": 3200, "thorough": 48000}),
